@@ -316,3 +316,34 @@ def r11(rr, repo):
         drops = [c for c in q.calls_in(h) if U(c.func).endswith('.new_recv') and not c.args and not c.keywords]
         okc = any(any(pol and 'sender_eph' in U(t) for t, pol in q.guards_of(c, stop=h)) or any(pol and 'ephemeral' in U(t) for t, pol in q.guards_of(c, stop=h)) for c in drops)
         rr.ob("when an ephemeral source closes, a half received set of it is dropped", okc, za.mod, h, witness=f'new_recv() calls in the CLOSE handler: {len(drops)}', key='eph-close-drops-partial')
+
+
+@rule('C05.R12', "a stalled listener cannot keep the publisher from finishing: every PUB socket is closed with a finite linger (close(linger=N), a LINGER option set on it, or a context destroyed with a linger) - "
+                 "with ZeroMQ's default the close waits until every queued message has been taken, so one stopped subscriber process ('??' included, it needs no request socket for that) blocks Context.term() and "
+                 "with it ZMQSender.destroy(), Filter.fini() and the end of run() for ever")
+def r12(rr, repo):
+    za = anchors(repo)
+    closes = [c for c in q.calls_in(za.S_destroy) if isinstance(c.func, ast.Attribute) and c.func.attr == 'close' and U(c.func.value).split('.')[-1] in ('pub', 'sock', 'socket')]
+    rr.floor('closes of PUB sockets in ZMQSender.destroy', len(closes), 1, za.mod, za.S_destroy)
+    opts = [c for c in list(q.calls_in(za.S_init)) + list(q.calls_in(za.S_destroy)) if isinstance(c.func, ast.Attribute) and c.func.attr == 'setsockopt' and c.args and U(c.args[0]).endswith('LINGER') and U(c.func.value).split('.')[-1] == 'pub']
+    _, free = repo.find(f'{Z}::ZMQContext.free')
+    ctx = [c for c in q.calls_in(free) if isinstance(c.func, ast.Attribute) and c.func.attr in ('destroy', 'term') and (q.kwarg(c, 'linger') is not None or c.args)]
+    def finite(node):
+        if node is None:
+            return None
+        if isinstance(node, ast.Constant):
+            return isinstance(node.value, int) and node.value >= 0
+        if isinstance(node, ast.UnaryOp) and isinstance(node.op, ast.USub):
+            return False
+        v = za.consts_env.get(U(node))
+        return (isinstance(v, int) and v >= 0) if v is not None else None
+    for c in closes:
+        lg = q.kwarg(c, 'linger') if q.kwarg(c, 'linger') is not None else (c.args[0] if c.args else None)
+        f = finite(lg)
+        by_opt = any(finite(o.args[1]) for o in opts if len(o.args) > 1)
+        by_ctx = any(finite(q.kwarg(x, 'linger') if q.kwarg(x, 'linger') is not None else x.args[0]) for x in ctx)
+        if lg is not None and f is None and not by_opt and not by_ctx:
+            rr.unresolved('the linger value a PUB socket is closed with could not be folded', za.mod, c, witness=U(c)[:80], key='pub-close-bounded')
+        else:
+            rr.ob('the PUB socket is closed with a finite linger', bool(f) or by_opt or by_ctx, za.mod, c,
+                  witness=f'{U(c)[:80]}; LINGER option on the socket: {by_opt}; linger on the context: {by_ctx}', key='pub-close-bounded')
